@@ -56,6 +56,48 @@ type c12Knobs struct {
 	// EAGAIN (an error that reports Temporary()), "eof", "error-once". No message is fine; a message must still carry a fresh ID.
 	RandFault     string `json:"rand_fault,omitempty"`
 	RandFaultStep int    `json:"rand_fault_at_creation,omitempty"`
+	// SPURL: the URL the SP is deployed at, "" = https://sp.example.com. Its metadata, ACS and SLO URLs follow from it, so it is the
+	// "configured ACS URL" dimension: an explicit port (the scheme's default or another), plain http, an IPv6 literal as host.
+	SPURL string `json:"sp_url,omitempty"`
+}
+
+// c12SPURLs are deployment URLs for the SP; each is spelled the way net/url writes it back (checked when the world is built), so
+// that "the configured ACS URL" is one text whichever way it is obtained.
+var c12SPURLs = []c12Named{
+	{"https-port-443", "https://sp.example.com:443"}, {"https-port-8443", "https://sp.example.com:8443"},
+	{"http-port-80", "http://sp.example.com:80"}, {"http-no-port", "http://sp.example.com"}, {"http-port-8080", "http://sp.example.com:8080"},
+	{"ipv6-port-443", "https://[2001:db8::1]:443"}, {"ipv6-no-port", "https://[2001:db8::1]"}, {"ipv4-port-443", "https://192.0.2.7:443"},
+}
+
+// Queries an IdP endpoint URL may carry already. The second list uses names the bindings give a meaning to (a deep link such as
+// /slo?tenant=acme&RelayState=%2Fportal is a legal Location): there the statement decides between "the endpoint's own parameters
+// stay" and "a single SAMLRequest/SAMLResponse, the RelayState as a single parameter" in favour of the latter.
+var c12EndpointQueries = []string{"tenant=a&x=1", "t=a%26b+c&flag"}
+var c12ReservedQueries = []string{"tenant=acme&RelayState=%2Fportal", "SAMLRequest=none&SAMLResponse=none", "RelayState=old+one&x=1", "SAMLResponse=none&tenant=a&SAMLRequest=none"}
+
+func c12UsesReserved(q string) bool {
+	for _, e := range c12ParseQuery(q) {
+		if c12Reserved[e.name] {
+			return true
+		}
+	}
+	return false
+}
+
+func c12SPURLClass(u string) string {
+	for _, c := range c12SPURLs {
+		if c.s == u {
+			return c.class
+		}
+	}
+	return "other"
+}
+
+func (k c12Knobs) spBase() string {
+	if k.SPURL != "" {
+		return k.SPURL
+	}
+	return spBase
 }
 
 type c12Step struct {
@@ -214,13 +256,20 @@ func genSPEgress(g *Rng, tier string) *Plan {
 		k.KeyKind = "rsa"
 		k.SigMethod = Pick(g, "", "", dsig.RSASHA1SignatureMethod, dsig.RSASHA256SignatureMethod)
 	}
+	if g.Bool(0.3) {
+		k.SPURL = Pick(g, c12SPURLs...).s
+	}
+	if g.Bool(0.3) {
+		k.SLOQuery = Pick(g, c12ReservedQueries...)
+	}
+	base := k.spBase()
 	p := &Plan{}
 	n := 1 + g.PickW(4, 3, 2, 1)
 	for i := 0; i < n; i++ {
 		st := c12Step{Kind: c12Kinds[g.PickW(c12KindW...)]}
 		switch {
 		case strings.HasPrefix(st.Kind, "mw-"):
-			st.Target = Pick(g, spBase+"/app", spBase+"/app/page?x=1&y=%C3%A9", spBase+"/")
+			st.Target = Pick(g, base+"/app", base+"/app/page?x=1&y=%C3%A9", base+"/")
 			if g.Bool(0.55) {
 				st.Custom = true
 				s := c12DrawString(g, "token", 0)
@@ -338,6 +387,7 @@ type c12World struct {
 	sso    map[string]string // binding URN -> IdP SSO location
 	slo    map[string]string
 	entity string
+	acs    string // the configured ACS URL, as text
 	reg    mapSPP
 	jar    []*http.Cookie // the browser's cookies after the most recent middleware start
 	// one IdP object for the run's login round trips (ServeSSO sees the run's requests one after another, each of them twice)
@@ -390,7 +440,11 @@ func c12BuildWorld(k c12Knobs) *c12World {
 		{Binding: saml.HTTPPostBinding, Location: w.slo[saml.HTTPPostBinding]},
 	}
 	w.idpMD = md
-	w.sp = newSP(spBase, w.kp, k.EntityID, md)
+	w.sp = newSP(k.spBase(), w.kp, k.EntityID, md)
+	w.acs = k.spBase() + "/saml/acs"
+	if w.sp.AcsURL.String() != w.acs {
+		panic("harness: the SP URL " + k.spBase() + " is not spelled the way net/url writes it")
+	}
 	c12Configure(w.sp, k)
 	w.entity = spEntityID(w.sp)
 	w.reg = mapSPP{}
@@ -415,7 +469,7 @@ func c12Configure(sp *saml.ServiceProvider, k c12Knobs) {
 
 func (w *c12World) middleware(st c12Step) (*samlsp.Middleware, error) {
 	opts := samlsp.Options{
-		EntityID: w.k.EntityID, URL: mustURL(spBase), Key: w.kp.Key, Certificate: w.kp.Cert, IDPMetadata: w.idpMD,
+		EntityID: w.k.EntityID, URL: mustURL(w.k.spBase()), Key: w.kp.Key, Certificate: w.kp.Cert, IDPMetadata: w.idpMD,
 		SignRequest: w.k.SigMethod != "", ForceAuthn: w.k.ForceAuthn != nil && *w.k.ForceAuthn,
 	}
 	if w.k.ReqCtx {
@@ -783,11 +837,28 @@ func c12Names(ps []c12Param) string {
 	return strings.Join(ns, ",")
 }
 
+// c12Reserved are the parameter names the bindings give a meaning to.
+var c12Reserved = map[string]bool{"SAMLRequest": true, "SAMLResponse": true, "RelayState": true, "SigAlg": true, "Signature": true}
+
 // c12CheckParams decides the parameter-level part of the statement: the endpoint's own parameters are
 // still there, exactly one message parameter, RelayState as a single parameter with the given bytes,
 // nothing else (SigAlg/Signature only where a signature may be carried).
-func c12CheckParams(ps []c12Param, endpoint []c12Param, msgParam string, rsKnown bool, rs string, allowSig bool) (payload string, p *c12Problem) {
+//
+// An endpoint whose own query uses one of the bindings' names: the statement wants a single message parameter (which has to
+// decode to the message) and the given relay state as a single RelayState parameter, so the endpoint's own parameter of the
+// message's name, and its own RelayState when a relay state is given, cannot stay beside them. When no relay state is given the
+// statement does not say whose the endpoint's RelayState is: kept or left out, either is taken (note, counted as don't-care).
+// The endpoint's parameters under the remaining reserved names (the other message name, SigAlg, Signature) are not judged.
+func c12CheckParams(ps []c12Param, endpoint []c12Param, msgParam string, rsKnown bool, rs string, allowSig bool) (payload, note string, p *c12Problem) {
+	var ownRS []string
 	for _, e := range endpoint {
+		if e.name == msgParam {
+			continue
+		}
+		if e.name == "RelayState" {
+			ownRS = append(ownRS, e.value)
+			continue
+		}
 		found := false
 		for i := range ps {
 			if !ps[i].used && !ps[i].bad && ps[i].name == e.name && ps[i].value == e.value {
@@ -795,8 +866,8 @@ func c12CheckParams(ps []c12Param, endpoint []c12Param, msgParam string, rsKnown
 				break
 			}
 		}
-		if !found {
-			return "", &c12Problem{"endpoint-query-altered", "the IdP endpoint's own parameter " + e.name + "=" + e.value, "parameters " + c12Names(ps), ""}
+		if !found && !c12Reserved[e.name] {
+			return "", "", &c12Problem{"endpoint-query-altered", "the IdP endpoint's own parameter " + e.name + "=" + e.value, "parameters " + c12Names(ps), ""}
 		}
 	}
 	counts := map[string]int{}
@@ -806,7 +877,7 @@ func c12CheckParams(ps []c12Param, endpoint []c12Param, msgParam string, rsKnown
 			continue
 		}
 		if q.bad {
-			return "", &c12Problem{"malformed-escape", "every parameter percent-decodes", fmt.Sprintf("parameter %q=%q does not decode", q.name, q.value), ""}
+			return "", "", &c12Problem{"malformed-escape", "every parameter percent-decodes", fmt.Sprintf("parameter %q=%q does not decode", q.name, q.value), ""}
 		}
 		counts[q.name]++
 		switch q.name {
@@ -816,31 +887,38 @@ func c12CheckParams(ps []c12Param, endpoint []c12Param, msgParam string, rsKnown
 			rsVals = append(rsVals, q.value)
 		case "SigAlg", "Signature":
 			if !allowSig {
-				return "", &c12Problem{"injected-parameter", "no " + q.name + " parameter", "parameters " + c12Names(ps), ""}
+				return "", "", &c12Problem{"injected-parameter", "no " + q.name + " parameter", "parameters " + c12Names(ps), ""}
 			}
 		default:
-			return "", &c12Problem{"injected-parameter", "only " + msgParam + " and RelayState beside the endpoint's own parameters", fmt.Sprintf("extra parameter %q", q.name), "parameters " + c12Names(ps)}
+			return "", "", &c12Problem{"injected-parameter", "only " + msgParam + " and RelayState beside the endpoint's own parameters", fmt.Sprintf("extra parameter %q", q.name), "parameters " + c12Names(ps)}
 		}
 	}
 	if counts[msgParam] != 1 {
-		return "", &c12Problem{"message-parameter-count", "exactly one " + msgParam, fmt.Sprintf("%d", counts[msgParam]), "parameters " + c12Names(ps)}
+		return "", "", &c12Problem{"message-parameter-count", "exactly one " + msgParam, fmt.Sprintf("%d", counts[msgParam]), "parameters " + c12Names(ps)}
 	}
 	for _, n := range []string{"RelayState", "SigAlg", "Signature"} {
 		if counts[n] > 1 {
-			return "", &c12Problem{"duplicate-parameter", "at most one " + n, fmt.Sprintf("%d", counts[n]), "parameters " + c12Names(ps)}
+			return "", "", &c12Problem{"duplicate-parameter", "at most one " + n, fmt.Sprintf("%d", counts[n]), "parameters " + c12Names(ps)}
 		}
 	}
 	if rsKnown {
 		switch {
 		case rs == "" && len(rsVals) == 1 && rsVals[0] != "":
-			return "", &c12Problem{"relaystate-altered", "no or empty RelayState", fmt.Sprintf("%q", rsVals[0]), ""}
+			own := false
+			for _, v := range ownRS {
+				own = own || v == rsVals[0]
+			}
+			if !own {
+				return "", "", &c12Problem{"relaystate-altered", "no or empty RelayState", fmt.Sprintf("%q", rsVals[0]), ""}
+			}
+			note = "no-relay-state-given:endpoint's-own-RelayState-kept"
 		case rs != "" && len(rsVals) == 0:
-			return "", &c12Problem{"relaystate-dropped", fmt.Sprintf("RelayState=%q (%d bytes)", short(rs, 40), len(rs)), "no RelayState parameter", ""}
+			return "", "", &c12Problem{"relaystate-dropped", fmt.Sprintf("RelayState=%q (%d bytes)", short(rs, 40), len(rs)), "no RelayState parameter", ""}
 		case rs != "" && rsVals[0] != rs:
-			return "", &c12Problem{"relaystate-altered", fmt.Sprintf("RelayState=%q", short(rs, 60)), fmt.Sprintf("%q", short(rsVals[0], 60)), ""}
+			return "", "", &c12Problem{"relaystate-altered", fmt.Sprintf("RelayState=%q", short(rs, 60)), fmt.Sprintf("%q", short(rsVals[0], 60)), ""}
 		}
 	}
-	return payload, nil
+	return payload, note, nil
 }
 
 // ---------------------------------------------------------------- stub consumer: decode the wire form
@@ -852,6 +930,7 @@ type c12Decoded struct {
 	hr         *http.Request // request as the peer receives it (authn requests go to the real IdP)
 	rawQuery   string
 	repaired   bool
+	note       string // a reading the statement leaves open was met (see c12CheckParams)
 	haveSig    bool
 	sigPrefixB string // the query up to, not including, "&Signature="
 	sigA       string // SAMLRequest=..&RelayState=..&SigAlg=.. assembled from the raw octets
@@ -909,7 +988,7 @@ func (w *c12World) decode(em *c12Emission) (*c12Decoded, *c12Problem) {
 		case fragment != wantFrag:
 			prob = &c12Problem{"fragment", "no fragment (a fragment never reaches the IdP)", fmt.Sprintf("fragment %q", short(fragment, 60)), "parameters " + c12Names(ps)}
 		default:
-			payload, prob = c12CheckParams(ps, endpoint, msgParam, em.rsKnown, em.expectRS, em.msg == "authn")
+			payload, d.note, prob = c12CheckParams(ps, endpoint, msgParam, em.rsKnown, em.expectRS, em.msg == "authn")
 			if prob == nil && stripped {
 				prob = &c12Problem{"raw-newline-in-url", "a URL without raw TAB/CR/LF", "the browser removed them", ""}
 			}
@@ -976,7 +1055,7 @@ func (w *c12World) decode(em *c12Emission) (*c12Decoded, *c12Problem) {
 			}
 		}
 		var prob *c12Problem
-		payload, prob = c12CheckParams(ps, nil, msgParam, em.rsKnown, em.arriving(), false)
+		payload, _, prob = c12CheckParams(ps, nil, msgParam, em.rsKnown, em.arriving(), false)
 		if prob != nil {
 			return nil, prob
 		}
@@ -1060,8 +1139,8 @@ func (w *c12World) checkMessage(em *c12Emission, d *c12Decoded, st c12Step) *c12
 	}
 	switch em.msg {
 	case "authn":
-		if v := root.SelectAttrValue("AssertionConsumerServiceURL", ""); v != w.sp.AcsURL.String() {
-			return &c12Problem{"acs-url", w.sp.AcsURL.String(), v, ""}
+		if v := root.SelectAttrValue("AssertionConsumerServiceURL", ""); v != w.acs {
+			return &c12Problem{"acs-url", w.acs, v, ""}
 		}
 		pb := root.SelectAttrValue("ProtocolBinding", "")
 		okPB := false
@@ -1260,10 +1339,13 @@ func execSPEgress(t *testing.T, p *Plan) *Result {
 		res.probe("idp-endpoint-with-query")
 	}
 	res.logf("config key=%s sig=%q sso?%q slo?%q format=%q force=%s ctx=%v entity=%q", k.KeyKind, k.SigMethod, k.SSOQuery, k.SLOQuery, k.NameIDFormat, c12PB(k.ForceAuthn), k.ReqCtx, k.EntityID)
+	if k.SPURL != "" {
+		res.logf("config sp-url=%q", k.SPURL)
+	}
 
 	var created []c12Created
 	for si, st := range steps {
-		if c12Hostile(st.RelayState) || c12Hostile(st.NameID) || c12Hostile(st.ReqID) || k.SSOQuery != "" || k.SLOQuery != "" {
+		if c12Hostile(st.RelayState) || c12Hostile(st.NameID) || c12Hostile(st.ReqID) || k.SSOQuery != "" || k.SLOQuery != "" || k.SPURL != "" {
 			res.Nontrivial = true
 		}
 		start := rd.pos
@@ -1342,6 +1424,21 @@ func execSPEgress(t *testing.T, p *Plan) *Result {
 		}
 		if d.repaired {
 			res.probe("redirect-url-needed-browser-repair")
+		}
+		if d.note != "" {
+			res.dontcare(d.note)
+		}
+		if em.binding == "redirect" && em.msg != "authn" && c12UsesReserved(k.SLOQuery) {
+			res.probe("logout-redirect-to-endpoint-whose-query-uses-reserved-names")
+			if st.RelayState != "" {
+				res.probe("logout-redirect-to-endpoint-whose-query-uses-reserved-names:relay-state-given")
+			}
+		}
+		if em.binding == "redirect" && em.msg == "authn" && c12UsesReserved(k.SSOQuery) {
+			res.probe("authn-redirect-to-endpoint-whose-query-uses-reserved-names")
+		}
+		if em.msg == "authn" && k.SPURL != "" {
+			res.probe("authn-request-of-sp-at:" + c12SPURLClass(k.SPURL))
 		}
 		if len(st.RelayState) > 80 && em.binding == "redirect" && em.msg != "authn" {
 			res.probe("relaystate>80-on-logout-redirect")
@@ -1434,7 +1531,7 @@ func execSPEgress(t *testing.T, p *Plan) *Result {
 				res.violate(si, "idp-rejected", "C12/"+em.site+"/idp-"+stage, "the library IdP accepts the request", "REJECT", e.Error())
 				return res
 			}
-			if em.rsKnown && ireq.RelayState != em.arriving() {
+			if em.rsKnown && d.note == "" && ireq.RelayState != em.arriving() { // d.note: no relay state given, the endpoint's own one travels
 				c12Count(res, em.site, st, "relaystate")
 				res.logf("%s; IdP ACCEPT but relay state differs", line)
 				sym := "idp-relaystate-altered"
@@ -1453,8 +1550,8 @@ func execSPEgress(t *testing.T, p *Plan) *Result {
 				prob = &c12Problem{"idp-parsed-issuer", w.entity, "another", ""}
 			case rq.Destination != em.dest:
 				prob = &c12Problem{"idp-parsed-destination", em.dest, rq.Destination, ""}
-			case rq.AssertionConsumerServiceURL != w.sp.AcsURL.String():
-				prob = &c12Problem{"idp-parsed-acs-url", w.sp.AcsURL.String(), rq.AssertionConsumerServiceURL, ""}
+			case rq.AssertionConsumerServiceURL != w.acs:
+				prob = &c12Problem{"idp-parsed-acs-url", w.acs, rq.AssertionConsumerServiceURL, ""}
 			}
 			if prob != nil {
 				res.logf("%s; IdP ACCEPT but parsed %s differs", line, prob.sym)
@@ -1521,7 +1618,7 @@ func execSPEgress(t *testing.T, p *Plan) *Result {
 				res.probe("idp-answer-failed:" + k.KeyKind + "-key(other properties)")
 				line += "; IdP could not answer"
 			default:
-				if em.rsKnown && form.RelayState != em.arriving() {
+				if em.rsKnown && d.note == "" && form.RelayState != em.arriving() {
 					res.logf("%s; IdP answer carries another relay state", line)
 					res.violate(si, "not-recoverable", "C12/idp-return/relaystate-altered", fmt.Sprintf("%q", short(em.expectRS, 60)), fmt.Sprintf("%q", short(form.RelayState, 60)), "")
 					return res
@@ -1769,6 +1866,21 @@ func simplifySPEgress(p *Plan) []*Plan {
 	if k.EntityID != "" {
 		withK(func(k *c12Knobs) { k.EntityID = "" })
 	}
+	if k.SPURL != "" {
+		// the SP moves to the default URL, and the URLs the browser asks it for move with it
+		c := p.Clone()
+		k2 := k
+		k2.SPURL = ""
+		c.Knobs = mustJSON(k2)
+		for i, raw := range c.Steps {
+			st := decode[c12Step](raw)
+			if strings.HasPrefix(st.Target, k.SPURL) {
+				st.Target = spBase + strings.TrimPrefix(st.Target, k.SPURL)
+				c.Steps[i] = mustJSON(st)
+			}
+		}
+		out = append(out, c)
+	}
 	for i, raw := range p.Steps {
 		st := decode[c12Step](raw)
 		put := func(f func(*c12Step)) {
@@ -1798,8 +1910,8 @@ func simplifySPEgress(p *Plan) []*Plan {
 		if strings.Contains(st.Kind, "-make-") {
 			put(func(x *c12Step) { x.Kind = strings.Replace(x.Kind, "-make-", "-", 1); x.RespBinding = "" })
 		}
-		if st.Target != "" && st.Target != spBase+"/app" {
-			put(func(x *c12Step) { x.Target = spBase + "/app" })
+		if st.Target != "" && st.Target != k.spBase()+"/app" {
+			put(func(x *c12Step) { x.Target = k.spBase() + "/app" })
 		}
 	}
 	return out
@@ -1808,14 +1920,14 @@ func simplifySPEgress(p *Plan) []*Plan {
 func init() {
 	register(&Profile{
 		ID: "C12", Name: "sp-egress", Level: "exploration",
-		Rule: "each run: one SP configuration (RSA/ECDSA key, unsigned or rsa-sha1/rsa-sha256/ecdsa-sha256, IdP SSO and SLO endpoint URLs without/with a query string, 5 name-ID-format settings, ForceAuthn unset/true/false, RequestedAuthnContext set/unset, entity ID unset/URL/URL-with-query/URN-with-XML-metacharacters) and 1-4 message creations drawn from 15 kinds (AuthnRequest via MakeRedirect/MakePost/MakeAuthenticationRequest+Redirect/Post and via samlsp.Middleware.RequireAccount; LogoutRequest and LogoutResponse via the Make* and Make*+Redirect/Post builders; ArtifactResolve) with relay state / name ID / request ID drawn from plain, single metacharacter (& = # + % %41 %zz ; ? / space quotes <> TAB LF CR CRLF non-ASCII ...), composite injection strings, 79/80/81/500-byte, and random strings; every wire form is taken through a browser stub to the real library IdP (authn) or a stub SLO consumer (logout); the whole creation sequence is re-executed on a different random stream and one creation on streams differing in a single byte. non-trivial = some string is not [A-Za-z0-9_-]{0,80} or an endpoint carries a query string; distinct = distinct abstract event log (configuration, kinds, strings, outcome per stage); 40% of middleware starts are followed by a reload of the same URL that presents the first start's tracking cookies (every start must carry its own fresh ID)",
+		Rule: "each run: one SP configuration (RSA/ECDSA key, unsigned or rsa-sha1/rsa-sha256/ecdsa-sha256, IdP SSO and SLO endpoint URLs without/with a query string (30% of runs: an SLO endpoint whose own query uses SAMLRequest/SAMLResponse/RelayState), SP deployed at https://sp.example.com or (30%) at a URL with an explicit default or other port, plain http, an IPv6/IPv4 literal host, 5 name-ID-format settings, ForceAuthn unset/true/false, RequestedAuthnContext set/unset, entity ID unset/URL/URL-with-query/URN-with-XML-metacharacters) and 1-4 message creations drawn from 15 kinds (AuthnRequest via MakeRedirect/MakePost/MakeAuthenticationRequest+Redirect/Post and via samlsp.Middleware.RequireAccount; LogoutRequest and LogoutResponse via the Make* and Make*+Redirect/Post builders; ArtifactResolve) with relay state / name ID / request ID drawn from plain, single metacharacter (& = # + % %41 %zz ; ? / space quotes <> TAB LF CR CRLF non-ASCII ...), composite injection strings, 79/80/81/500-byte, and random strings; every wire form is taken through a browser stub to the real library IdP (authn) or a stub SLO consumer (logout); the whole creation sequence is re-executed on a different random stream and one creation on streams differing in a single byte. non-trivial = some string is not [A-Za-z0-9_-]{0,80} or an endpoint carries a query string; distinct = distinct abstract event log (configuration, kinds, strings, outcome per stage); 40% of middleware starts are followed by a reload of the same URL that presents the first start's tracking cookies (every start must carry its own fresh ID)",
 		Gen:  genSPEgress, Exec: execSPEgress, Simplify: simplifySPEgress,
 		RunsQuick: 4000, RunsThorough: 400000,
 		Assumptions: []string{
 			"text = valid UTF-8 without NUL; of the C0 controls only TAB, LF, CR are generated",
 			"the redirect URL reaches the IdP through a browser that follows the URL standard: TAB/CR/LF are removed, the part after '#' is not sent, space/quotes/<>/non-ASCII in the query are percent-encoded by the browser (counted as probe redirect-url-needed-browser-repair, not a violation)",
 			"a browser normalises newlines in form values to CRLF on submission, so a relay state holding a CR or LF outside a CRLF pair cannot survive any POST form byte-for-byte: declared DONT_CARE (post-form-bare-newline), compared modulo that normalisation; CRLF pairs must survive",
-			"IdP endpoint query strings do not themselves use the reserved names SAMLRequest/SAMLResponse/RelayState/SigAlg/Signature",
+			"IdP SSO endpoint query strings do not themselves use the reserved names SAMLRequest/SAMLResponse/RelayState/SigAlg/Signature (the pinned tree's AuthnRequest.Redirect appends to the endpoint's raw query, so such an endpoint ends up with two parameters of a name: known, DESIGN 13.2); single-logout endpoint queries do use SAMLRequest/SAMLResponse/RelayState: the URL must then carry a single message parameter that decodes to the message and, when a relay state is given, a single RelayState with the given bytes; when none is given the endpoint's own RelayState may stay or go (DONT_CARE no-relay-state-given:endpoint's-own-RelayState-kept); the endpoint's parameter under the other message name is not judged",
 			"XML is read with the repository's own parser family (encoding/xml via etree after xml-roundtrip-validator): raw TAB/LF inside attributes are kept (a fully conformant parser would fold them to spaces), CR becomes LF",
 			"signatures are outside the statement: a query signature is decisive only if present and verifying under neither reading (over SAMLRequest&RelayState&SigAlg, or over the whole query before &Signature); embedded XML signatures are only counted",
 			"ID derivation measure: >= 16 bytes drawn from saml.RandReader during the creation; the ID changes when the stream changes; for one creation per run, flipping single drawn bytes changes the ID for >= 16 byte positions (if the ID is not reproducible from the bytes alone: it must embed hex/base64 of >= 16 drawn bytes)",
